@@ -50,6 +50,12 @@ func c10(c *Ctx) {
 	// what a restart finds as the newest snapshot after a user Restore: stamped
 	// with the current term, so that no older local snapshot sorts before it
 	c20CreateStamp(c, "R13/C20.R4")
+	// round 8: the reaper removes only snapshots beyond the newest `retain`
+	// of the metadata-sorted listing (a reaped newest snapshot leaves a restart
+	// with an older one and a compacted hole), and the vote check of a
+	// restarted server reads the persisted vote record (S-VOTEID)
+	c15R4(c, "R14/C15.R4")
+	sVoteIdentity(c, "R14/S-VOTEID")
 }
 
 func c10R1(c *Ctx, rule string) {
